@@ -206,7 +206,15 @@ def generate(st):
     last_target = None
     while len(ops) < cfg['n_ops']:
         r = f.random() if cfg['faulty'] else 1.0
-        if r < cfg['p_rereg']:
+        if r < cfg['p_rereg'] * 0.25:
+            # fault: a registration that fails half-way (unparseable range); the key must keep its previous calendar
+            key = g.choice(keys)
+            c = _gen_config(g)
+            ops.append(dict(op='register_bad', key=key, hol=c['hol'], weekend=c['weekend'], bad=g.choice(['t0', 't1'])))
+            for _ in range(g.choice([1, 2])):
+                ops.append(query('key:' + key))
+            last_target = 'key:' + key
+        elif r < cfg['p_rereg']:
             key = g.choice(keys)
             via = g.choice(['args', 'args', 'obj', 'obj_with_holidays'])
             old = current['key:' + key]
@@ -256,6 +264,18 @@ def execute(trace, ctx=None):
         for k, op in enumerate(trace['ops']):
             state['step'] = k
             kind = op['op']
+            if kind == 'register_bad':
+                hol = [_d(h) for h in op['hol']]
+                kw = {'t0': None, 't1': None}
+                kw[op['bad']] = 'not-a-date-at-all'
+                try:
+                    calendar(op['key'], holidays=hol, weekend=list(op['weekend']), **kw)
+                except Exception:
+                    res.fault('failed_registration')
+                else:
+                    # the library accepted it: then it IS a registration and the model cannot follow (range unknown) -> stop checking this key
+                    refs.pop('key:' + op['key'], None)
+                continue
             if kind in ('register', 'new_cal'):
                 hol = [_d(h) for h in op['hol']]
                 t0, t1 = _d(op['t0']), _d(op['t1'])
@@ -444,7 +464,7 @@ def _run_across_month_end(ref, t):
 def shrink_candidates(trace):
     import copy
     for k, op in enumerate(trace['ops']):
-        if op['op'] in ('register', 'new_cal'):
+        if op['op'] in ('register', 'new_cal', 'register_bad'):
             h = op['hol']
             if len(h) > 1:
                 t = copy.deepcopy(trace); t['ops'][k]['hol'] = h[:len(h) // 2]; yield t
